@@ -241,23 +241,32 @@ def check(ctx, stats, samples):
     argdesc = [[d] + [["I", rng.choice(inst)] for _ in range(npos - 1)] for d in pool0]
     argsets = build_args(w, argdesc)
     log = []
-    ref = outcomes(build(w, surround, [(90, sp[0], npos)], log), log, argsets)
+    extra = []
+    if base[0] == "literal" and rng.random() < 0.6:
+        # three or four further Literal methods on other values: from four Literal methods on, the group is served by the
+        # lookup-table strategy, whose keys come from a different place than the checks of the if-chain
+        other = [10, 11, 12, 13] if isinstance(base[1], int) else ["p", "q", "r", "s"]
+        extra = [(80 + i, ["literal", v], npos) for i, v in enumerate(other[:rng.randint(3, 4)])]
+        stats["literal_table_groups"] += 1
+    _build = build
+    build_x = lambda w_, su, special, log_: _build(w_, su, extra + special, log_)
+    ref = outcomes(build_x(w, surround, [(90, sp[0], npos)], log), log, argsets)
     stats["evaluations"] += len(argsets)
     for s in sp[1:]:
-        got = outcomes(build(w, surround, [(90, s, npos)], log), log, argsets)
+        got = outcomes(build_x(w, surround, [(90, s, npos)], log), log, argsets)
         stats["evaluations"] += len(argsets)
         stats["respellings"] += 1
         stats["distinct"].add(hash(json.dumps([spec, surround, sp[0], s])))
         if got != ref:
-            ctx.violation(f"respelling {s} of {sp[0]} changes dispatch: {ref} -> {got}", {"spec": spec, "surround": surround, "a": sp[0], "b": s, "npos": npos, "args": argdesc})
+            ctx.violation(f"respelling {s} of {sp[0]} changes dispatch: {ref} -> {got}", {"spec": spec, "surround": surround, "a": sp[0], "b": s, "npos": npos, "args": argdesc, "extra": extra})
             return
         # both spellings in one function == the same spelling twice (the later definition replaces the earlier)
-        both = outcomes(build(w, surround, [(90, sp[0], npos), (91, s, npos)], log), log, argsets)
-        twice = outcomes(build(w, surround, [(90, sp[0], npos), (91, sp[0], npos)], log), log, argsets)
+        both = outcomes(build_x(w, surround, [(90, sp[0], npos), (91, s, npos)], log), log, argsets)
+        twice = outcomes(build_x(w, surround, [(90, sp[0], npos), (91, sp[0], npos)], log), log, argsets)
         stats["evaluations"] += 2 * len(argsets)
         if both != twice:
             ctx.violation(f"a function holding both spellings {sp[0]} and {s} differs from one holding the same spelling twice: {twice} -> {both}",
-                          {"spec": spec, "surround": surround, "a": sp[0], "b": s, "npos": npos, "both": True, "args": argdesc})
+                          {"spec": spec, "surround": surround, "a": sp[0], "b": s, "npos": npos, "both": True, "args": argdesc, "extra": extra})
             return
     if len(samples) < 3:
         samples.append({"base": base, "spellings": sp, "reference_outcomes": ref[:6]})
@@ -322,8 +331,8 @@ def run(ctx):
         if len(ctx.violations) > 3:
             break
     return {"evaluations": stats["evaluations"], "distinct_nontrivial": len(stats["distinct"]),
-            "rule": "per round one logical annotation (union of 2-3 classes, Optional, Any, class, list[...], Literal, type[...]) in all its spellings (typing.Union / | / tuple / reordered / string; Optional / | None; Any / missing / object; Annotated; list / typing.List; reordered Literal) placed at position 0 of one method inside 0-3 random surrounding static methods (1-2 positions); each respelling is run over 15+ arguments (instances, ints, strs, None, lists, passed classes) against the first spelling, and both-spellings-in-one-function against same-spelling-twice; a respelling pair is non-trivial (differs textually); distinct by (world, surrounding methods, pair)",
-            "samples": samples, "normaliser_checks": stats["norm_checks"], "respelling_pairs": stats["respellings"],
+            "rule": "per round one logical annotation (union of 2-3 classes, Optional, Any, class, list[...], Literal, type[...]) in all its spellings (typing.Union / | / tuple / reordered / string; Optional / | None; Any / missing / object; Annotated; list / typing.List; reordered Literal) placed at position 0 of one method inside 0-3 random surrounding static methods (1-2 positions), a Literal in most rounds also next to 3-4 further Literal methods (lookup-table strategy); each respelling is run over 15+ arguments (instances, ints, strs, None, lists, passed classes) against the first spelling, and both-spellings-in-one-function against same-spelling-twice; a respelling pair is non-trivial (differs textually); distinct by (world, surrounding methods, pair)",
+            "samples": samples, "literal_rounds_inside_a_lookup_table_group": stats["literal_table_groups"], "normaliser_checks": stats["norm_checks"], "respelling_pairs": stats["respellings"],
             "traces_validated_against_impl": stats["evaluations"]}
 
 
@@ -346,12 +355,13 @@ def replay(ctx, payload):
     w = World(c["spec"])
     argsets = build_args(w, c["args"])
     log = []
+    extra = [tuple(x) for x in c.get("extra", [])]
     if c.get("both"):
-        both = outcomes(build(w, c["surround"], [(90, c["a"], c["npos"]), (91, c["b"], c["npos"])], log), log, argsets)
-        twice = outcomes(build(w, c["surround"], [(90, c["a"], c["npos"]), (91, c["a"], c["npos"])], log), log, argsets)
+        both = outcomes(build(w, c["surround"], extra + [(90, c["a"], c["npos"]), (91, c["b"], c["npos"])], log), log, argsets)
+        twice = outcomes(build(w, c["surround"], extra + [(90, c["a"], c["npos"]), (91, c["a"], c["npos"])], log), log, argsets)
         return both != twice
-    ref = outcomes(build(w, c["surround"], [(90, c["a"], c["npos"])], log), log, argsets)
-    got = outcomes(build(w, c["surround"], [(90, c["b"], c["npos"])], log), log, argsets)
+    ref = outcomes(build(w, c["surround"], extra + [(90, c["a"], c["npos"])], log), log, argsets)
+    got = outcomes(build(w, c["surround"], extra + [(90, c["b"], c["npos"])], log), log, argsets)
     return ref != got
 
 
